@@ -25,9 +25,28 @@ void X__ZNKSt5ctypeIcE13_M_widen_initEv(u8 *p) { (void)p; }
 void X__ZNSt9basic_iosIcSt11char_traitsIcEE5clearESt12_Ios_Iostate(u8 *p, u32 s) { (void)p; (void)s; }
 u64 X__ZNSt6chrono3_V212system_clock3nowEv(void) { return nondet_u64(); }
 u32 X_vsnprintf(u8 *buf, u64 n, u8 *fmt, u8 *ap) { (void)fmt; (void)ap; if (n) buf[0] = 0; return 0; }
-u64 X_strlen(u8 *s) { u64 n = 0; while (s[n]) n++; return n; }
+/* strlen: a harness may announce the (concrete) length of the next string so that symbolic CONTENT does not make the length symbolic;
+   the announcement is checked as an assumption (string has no NUL before and a NUL at that index) */
+u64 env_strlen_hint = ~(u64)0;
+u8 *env_strlen_hint_ptr;
+u64 X_strlen(u8 *s)
+{
+  if (env_strlen_hint != ~(u64)0 && s == env_strlen_hint_ptr) {
+    u64 n = env_strlen_hint;
+    for (u64 i = 0; i < n; i++) ENV_ASSUME(s[i] != 0);
+    ENV_ASSUME(s[n] == 0);
+    return n;
+  }
+  u64 n = 0; while (s[n]) n++; return n;
+}
 u32 env_exit_called, env_exit_status;
 void X_exit(u32 status) { env_exit_called = 1; env_exit_status = status; ENV_ASSERT(0, "exit() called"); ENV_ASSUME(0); }
 u32 X_time(u8 *p) { (void)p; return (u32)nondet_u64(); }
 void X_srand(u32 s) { (void)s; }
 u32 X_rand(void) { return (u32)nondet_u64() & 0x7fffffff; }
+/* __gnu_cxx::__to_xstring (used by std::to_string(double) in the timing printout): returns an empty string */
+void X__ZN9__gnu_cxx12__to_xstringINSt7__cxx1112basic_stringIcSt11char_traitsIcESaIcEEEcEET_PFiPT0_mPKS8_P13__va_list_tagEmSB_z(u8 *sret, u8 *fn, u64 n, u8 *fmt, ...)
+{
+  (void)fn; (void)n; (void)fmt;
+  *(u8 **)sret = sret + 16; *(u64 *)(sret + 8) = 0; sret[16] = 0;     /* SSO: {ptr -> local buf, size 0} */
+}
